@@ -117,19 +117,30 @@ func checkNames(p *Program, r *Report) {
 	}
 	// ---- CONFLICT-BOTH-WAYS in the addition validator
 	{
-		// anchors: the two lookups are the in-package functions with signature
-		// (Table, []string, map[string]bool, string) (bool, error)
+		// anchors: the two lookups are the functions or methods of the package
+		// that return (bool, error), take the name looked up as their last
+		// (string) parameter and seek in a Table themselves
 		var lookups []*ssa.Function
 		for _, f := range p.Funcs {
 			sig := f.Signature
-			if f.Parent() == nil && sig.Recv() == nil && sig.Params().Len() == 4 && sig.Results().Len() == 2 {
-				if _, ok := sig.Params().At(2).Type().Underlying().(*types.Map); ok {
-					lookups = append(lookups, f)
-				}
+			if f.Parent() != nil || sig.Results().Len() != 2 || sig.Params().Len() == 0 || len(f.Params) == 0 {
+				continue
+			}
+			if b, ok := sig.Results().At(0).Type().Underlying().(*types.Basic); !ok || b.Kind() != types.Bool {
+				continue
+			}
+			if types.TypeString(sig.Results().At(1).Type(), nil) != "error" {
+				continue
+			}
+			if b, ok := sig.Params().At(sig.Params().Len()-1).Type().Underlying().(*types.Basic); !ok || b.Kind() != types.String {
+				continue
+			}
+			if len(callsDirect(f, "method:(Table).SeekRef")) > 0 {
+				lookups = append(lookups, f)
 			}
 		}
 		if len(lookups) != 2 {
-			fatalf("unresolved anchor: the two ref lookups (Table, []string, map[string]bool, string) (bool, error): %d found", len(lookups))
+			fatalf("unresolved anchor: the two ref lookups (functions returning (bool, error) that seek a name in a Table): %d found", len(lookups))
 		}
 		// prefix lookup: the one that calls strings.HasPrefix
 		var exact, prefix *ssa.Function
@@ -144,6 +155,8 @@ func checkNames(p *Program, r *Report) {
 			fatalf("unresolved anchor: exact / prefix lookups")
 		}
 		checkLookupSound(p, r, prefix)
+		// the name looked up is the last parameter (a method's receiver comes first)
+		nameArgP, nameArgE := len(prefix.Params)-1, len(exact.Params)-1
 		// the validator: the innermost function from which both lookups are reached
 		// (directly, or through per-aspect helpers such as "not a directory" /
 		// "no parent is a ref"); those helpers are analysed as part of it
@@ -265,7 +278,7 @@ func checkNames(p *Program, r *Report) {
 				}
 				if e.Aux == funcKey(prefix) && res.Op == "tuple" {
 					want := mk("bin", "+", nil, addName, tConst(`"/"`, nil))
-					if e.Args[3] == want && s.St.truth(res.Args[0]) == 0 {
+					if nameArgP < len(e.Args) && e.Args[nameArgP] == want && s.St.truth(res.Args[0]) == 0 {
 						okPrefix = true
 					}
 				}
@@ -313,17 +326,36 @@ func checkNames(p *Program, r *Report) {
 			var look *Term
 			var lookRes *Term
 			for i, e := range s.Events {
-				if e.Op == "ev" && e.Aux == funcKey(exact) && cm != nil && e.Args[3].contains(cm) && i+1 < len(s.Events) {
+				if e.Op == "ev" && e.Aux == funcKey(exact) && cm != nil && nameArgE < len(e.Args) && e.Args[nameArgE].contains(cm) && i+1 < len(s.Events) {
 					look, lookRes = e, s.Events[i+1].Args[0]
 				}
 			}
-			if look == nil || strings.Contains(look.Args[3].key, "bin[+]") {
+			if look == nil || strings.Contains(look.Args[nameArgE].key, "bin[+]") {
 				continue
 			}
 			ni++
 			w := witnessOf(p, s.St.trace)
-			dir := look.Args[3]
+			dir := look.Args[nameArgE]
 			isParent := dir.Op == "pcall" && (dir.Aux == "strings.TrimSuffix" || dir.Aux == "path.Dir")
+			isLastSlash := func(t *Term) bool {
+				return t.Op == "pcall" && (t.Aux == "strings.LastIndexByte" || t.Aux == "strings.LastIndex")
+			}
+			if dir.Op == "subslice" && len(dir.Args) == 3 {
+				// name[:LastIndexByte(name, '/')]
+				lo, hi := dir.Args[1], dir.Args[2]
+				if (lo.isNilConst() || (lo.isConst() && lo.Aux == "0")) && isLastSlash(hi) && hi.Args[0] == dir.Args[0] {
+					isParent = true
+				}
+			}
+			if dir.isConst() && dir.Aux == `""` {
+				// no slash left: the parent is the root
+				for _, k := range sortedFactKeys(s.St) {
+					t := s.St.fterm[k]
+					if t != nil && t.Op == "lt" && s.St.facts[k] && isLastSlash(t.Args[0]) && t.Args[1].isConst() && t.Args[1].Aux == "0" {
+						isParent = true
+					}
+				}
+			}
 			if !isParent || lookRes.Op != "tuple" || s.St.truth(lookRes.Args[0]) != 0 {
 				r.violate("CONFLICT-BOTH-WAYS", fk+" / ancestor step", p.pos(val.Pos()), "an ancestor step continues although the parent directory was not looked up or is an existing ref", w)
 			} else {
